@@ -284,6 +284,21 @@ def degenerate(seed, tier):
                         bad = ["raised " + repr(e)[:160]]
                     if bad:
                         fails.append({"family": fam, "config": {k: v for k, v in kk.items() if k != "random_state"}, "violations": bad})
+        # as many clusters as samples, more than 64 of them (K*K beyond 4096 entries per sample in the one-vs-one tensors)
+        if name in ("LinearModel", "MLPModel", "CategoricalModel"):
+            Xm = rs.normal(size=(70, 2))
+            for g in ("tv_ovo", "kl_ovo", "hellinger_ovo", "chi2_ovo", "mmd_ovo"):
+                nfit += 1
+                try:
+                    with warnings.catch_warnings(), np.errstate(all="ignore"):
+                        warnings.simplefilter("ignore")
+                        m = cls(n_clusters=70, gemini=g, max_iter=2, random_state=seed).fit(Xm)
+                        vals = [np.asarray(m.score(Xm), dtype=float), m.predict_proba(Xm)] + list(m._get_weights())
+                        bad = [] if all(np.all(np.isfinite(v)) for v in vals) else ["non-finite parameter / probability / score"]
+                except Exception as e:
+                    bad = ["raised " + repr(e)[:160]]
+                if bad:
+                    fails.append({"family": "70 samples, 70 clusters", "config": {"gemini": g, "n_clusters": 70}, "violations": bad})
         res[name] = (nfit, fails)
     return res
 
